@@ -21,6 +21,7 @@ Inductive uexpr :=
 | UENot (e : uexpr)
 | UEIdType                                (* id(type(self)) *)
 | UEStrSelf                               (* str(self) *)
+| UEEscStrSelf                            (* str(escape(str(self))) *)
 | UEDebugText.                            (* the text built by DebugUndefined.__str__ (proved equal to debug_str) *)
 
 Inductive ustmt :=
@@ -55,6 +56,13 @@ Section Interp.
                    | MRet VStr0 | MRet VStrX | MRet (VDebug _) | MRaise _ => (r, l)
                    | _ => (MUnmod, l)
                    end
+    | UEEscStrSelf => let '(r, l) := vc m_str ANone in
+                      match r with
+                      | MRet VStr0 => (MRet VStr0, l)
+                      | MRet VStrX | MRet (VDebug _) => (MRet VStrX, l)
+                      | MRaise q => (MRaise q, l)
+                      | _ => (MUnmod, l)
+                      end
     | UEDebugText => (MRet (VDebug p), [])
     end.
 
